@@ -48,6 +48,8 @@ public:
     CanPayload();
     CanPayload(const uint8_t* data, const size_t size);
 
+    bool isValid() const;
+
     const uint8_t* getData() const;
 
     uint32_t getCrc() const;
